@@ -519,7 +519,7 @@ func (e *executor) start() {
 	}
 	os.WriteFile(e.mark, make([]byte, 8), 0o600)
 	e.cmd = exec.Command(os.Args[0])
-	e.cmd.Env = append(os.Environ(), "C07_EXECUTOR="+e.tier, "C07_MARK="+e.mark, "GOMAXPROCS=2")
+	e.cmd.Env = append(os.Environ(), "C07_EXECUTOR="+e.tier, "C07_MARK="+e.mark, "GOMAXPROCS=1", "GOGC=200")
 	e.stdin, _ = e.cmd.StdinPipe()
 	out, _ := e.cmd.StdoutPipe()
 	e.stderr = &bytes.Buffer{}
@@ -1443,7 +1443,7 @@ func main() {
 			"in executor children the Go stack limit is lowered to 1 MB so that unbounded recursion dies quickly",
 		},
 		CaseTimeout: 300 * time.Second,
-		WorkerEnv:   []string{"GOMAXPROCS=2"},
+		WorkerEnv:   []string{"GOMAXPROCS=1", "GOGC=200"},
 		Build: func(tier string) (kit.Space, string) {
 			layers := buildLayers(tier)
 			pl := getPlan(tier, layers)
